@@ -407,6 +407,6 @@ pub fn mode_costprobe(a: &Args) -> i32 {
     let op = a.s("op", "none");
     let kind = crate::cli::kinds_of(a)[0];
     crate::dispatch!(kind, "fixed", probe, n, &op, ops, a.u("seed", 1));
-    println!("{}", serde_json::json!({"t":"stats","mode":"costprobe","evals":ops,"distinct":1,"sigs":{},"stats":{"n":n,"op":op,"ops":ops,"kind":kind.name()}}));
+    println!("{}", serde_json::json!({"t":"stats","mode":"costprobe","evals":ops,"distinct":0,"sigs":{},"stats":{"n":n,"op":op,"ops":ops,"kind":kind.name()}}));
     0
 }
